@@ -520,6 +520,34 @@ func checkC14Capabilities(w *World, r *Report, ri *recInfo) {
 		}
 	})
 	ru.Check("(*recorder).Hijack flag", w.Pos(hj.Pos()), "hijacked is set only when the underlying writer is a Hijacker", okH, fmt.Sprint(okH))
+	// ... and only after the delegated Hijack succeeded: a recorder marked hijacked drops every later header and body byte,
+	// which is only right when the connection was really taken over
+	okS, whyS := false, "the flag is set without a test of the delegated call's error"
+	eachInstr(hj, func(in ssa.Instruction) {
+		st, ok := in.(*ssa.Store)
+		if !ok {
+			return
+		}
+		if _, f, ok := fieldOfAddr(st.Addr); !ok || f != ri.hijacked {
+			return
+		}
+		for _, ft := range factsAtBlock(st.Block()) {
+			bo, ok := ft.Cond.(*ssa.BinOp)
+			if !ok || !isNilConst(bo.Y) || !isErrorType(bo.X.Type()) {
+				continue
+			}
+			ex, ok := bo.X.(*ssa.Extract)
+			if !ok {
+				continue
+			}
+			if c, ok := ex.Tuple.(*ssa.Call); ok && c.Common().IsInvoke() && c.Common().Method.Name() == "Hijack" {
+				if (bo.Op == token.EQL && ft.Val) || (bo.Op == token.NEQ && !ft.Val) {
+					okS, whyS = true, "set under err == nil of the delegated Hijack"
+				}
+			}
+		}
+	})
+	ru.Check("(*recorder).Hijack flag after success", w.Pos(hj.Pos()), "hijacked is set only when the delegated Hijack returned no error", okS, whyS)
 }
 
 func checkC14Helpers(w *World, r *Report) {
